@@ -373,3 +373,354 @@ def check_estimators(run, ctx):
             run.ok('C05-S1', st, 'size_of::<Self>() + %s' % ('capacity' if 'capacity' in spec else '%d recursive estimate(s)' % rec))
     run.require('C05-S1', 'reviewed estimator impls', len(seen), 11)
     return n
+
+
+# ------------------------------------------------------------------------------------------------
+def check_result_store(run, ctx):
+    """C09-S1: the four insert_result* store only in the Ok arm, and store Ok(clone(payload))"""
+    n = 0
+    for adt in (N.GLOBAL, N.THREAD):
+        for m, target in (('insert_result', 'insert'), ('insert_result_with_memory', 'insert_with_memory')):
+            body = ctx.core_fn('%s::%s' % (adt, m))
+            key = '%s::%s' % (adt.rsplit('::', 1)[-1], m)
+            n += 1
+            if body is None:
+                run.bad('C09-S1', key + '/fail-closed', 'fail-closed: %s::%s not found' % (adt, m))
+                continue
+            ex = Expr(body)
+            stores = [(b, t) for b, t in body.calls() if callee_name(t) in ('%s::%s' % (adt, 'insert'), '%s::%s' % (adt, 'insert_with_memory'))]
+            if len(stores) != 1 or callee_name(stores[0][1]) != '%s::%s' % (adt, target):
+                run.bad('C09-S1', key + '/store-call', '%s must make exactly one call to %s; found %s' % (key, target, [callee_name(t).rsplit('::', 1)[-1] for b, t in stores]), site=body.name)
+                continue
+            sb, st = stores[0]
+            # the switch on the discriminant of the value parameter
+            sw = None
+            for b in range(body.n):
+                t = body.term(b)
+                if t['k'] == 'switch':
+                    e = ex.operand(t['discr'])
+                    if e[0] == 'discr' and e[1] == ('param', 3):
+                        sw = (b, t)
+            if sw is None:
+                run.bad('C09-S1', key + '/no-variant-test', '%s stores without testing the variant of the result: Err values are stored' % key, site=body.name, oracle='store only in the Ok arm')
+                continue
+            b, t = sw
+            ok_target = None
+            for v, tb in t['targets']:
+                if v == 0:
+                    ok_target = tb
+            others = [tb for v, tb in t['targets'] if v != 0] + ([t['otherwise']] if ok_target is not None else [])
+            if ok_target is None:
+                # `if let Ok` may be encoded as switch [1 -> err] otherwise ok
+                ok_target = t['otherwise']
+                others = [tb for v, tb in t['targets']]
+            in_ok = body.dominates(ok_target, sb) and not any(sb in body.reachable(o) and not body.dominates(ok_target, o) for o in others if o != ok_target)
+            val = strip_casts(ex.operand(st['args'][2]))
+            payload_ok = val[0] == 'agg' and val[1] == N.RESULT + '::Ok' and any(
+                field_path(strip_casts(x))[1][-2:] == ['as:Ok', '0'] and field_path(strip_casts(x))[0] == ('param', 3) for x in walk(val))
+            keyarg = ex.operand(st['args'][1])
+            if not in_ok:
+                run.bad('C09-S1', key + '/stores-err', '%s reaches its store call from the Err arm: Err values are cached' % key, site=body.name, oracle='store control-dependent on discriminant == Ok')
+            elif not payload_ok or keyarg != ('param', 2):
+                run.bad('C09-S1', key + '/payload', '%s must store Ok(clone of the Ok payload) under the given key; stores %s under %s' % (key, show(val), show(keyarg)), site=body.name)
+            else:
+                run.ok('C09-S1', key, 'store only in the Ok arm, value Ok(payload.clone())')
+    run.require('C09-S1', 'insert_result* functions', n, 4)
+    return n
+
+
+# ------------------------------------------------------------------------------------------------
+REG = N.REGISTRY + '::'
+TABLES = {'tags': 'tag_to_caches', 'events': 'event_to_caches', 'dependencies': 'dependency_to_caches'}
+
+
+def _lock_field(e):
+    """field of the registry whose lock the expression was obtained from (through read()/write())"""
+    for c in calls_in(e):
+        if c[1] in ('lock_api::rwlock::RwLock::read', 'lock_api::rwlock::RwLock::write'):
+            root, names = field_path(c[2][0])
+            if names:
+                return names[-1], c[1].rsplit('::', 1)[-1]
+    return None, None
+
+
+def check_registry_tables(run, ctx):
+    """C12-S1 register/lookup table agreement; C12-S2 every looked-up callback runs and is counted once"""
+    n = 0
+    reg = ctx.core_fn(REG + 'register')
+    if reg is None:
+        run.bad('C12-S1', 'register/fail-closed', 'fail-closed: InvalidationRegistry::register not found')
+    else:
+        ex = Expr(reg)
+        pairs = set()
+        for b, t in reg.calls():
+            if callee_name(t) == N.HM + 'entry':
+                fld, mode = _lock_field(ex.operand(t['args'][0]))
+                keye = ex.operand(t['args'][1])
+                src = None
+                for c in calls_in(keye):
+                    if c[1].endswith('IntoIterator::into_iter'):
+                        root, names = field_path(c[2][0])
+                        if root == ('param', 3) and names:
+                            src = names[-1]
+                # the set receives the cache name
+                pairs.add((src, fld, mode))
+        n += 1
+        want = {(k, v, 'write') for k, v in TABLES.items()}
+        if pairs != want:
+            run.bad('C12-S1', 'register/table-mismatch', 'register files metadata lists into the wrong table: found (list, table, lock) %s, expected %s' % (sorted(pairs, key=str), sorted(want)),
+                    site=reg.name, oracle='tags -> tag_to_caches, events -> event_to_caches, dependencies -> dependency_to_caches')
+        else:
+            run.ok('C12-S1', 'register', 'tags/events/dependencies are filed into their own tables')
+        # the inserted member is the cache name
+        ins = [(b, t) for b, t in reg.calls() if callee_name(t) == N.HASHSET + '::insert']
+        names_ok = all(any(x == ('param', 2) for x in walk(ex.operand(t['args'][1]))) for b, t in ins)
+        if len(ins) != 3 or not names_ok:
+            run.bad('C12-S1', 'register/member', 'register must add the cache name to each of the three sets (found %d insertions, all with the cache name: %s)' % (len(ins), names_ok), site=reg.name)
+        else:
+            run.ok('C12-S1', 'register/member', 'cache name inserted into the three sets')
+    for k, fld in TABLES.items():
+        fn = {'tags': 'invalidate_by_tag', 'events': 'invalidate_by_event', 'dependencies': 'invalidate_by_dependency'}[k]
+        body = ctx.core_fn(REG + fn)
+        n += 1
+        if body is None:
+            run.bad('C12-S1', fn + '/fail-closed', 'fail-closed: %s not found' % fn)
+            continue
+        ex = Expr(body)
+        gets = [(b, t) for b, t in body.calls() if callee_name(t) == N.HM + 'get']
+        calls = [(b, t) for b, t in body.calls() if callee_name(t) == REG + 'invalidate_caches']
+        okk = False
+        got = None
+        if len(gets) == 1 and len(calls) == 1:
+            got, mode = _lock_field(ex.operand(gets[0][1]['args'][0]))
+            keyarg = ex.operand(gets[0][1]['args'][1])
+            passed = ex.operand(calls[0][1]['args'][1])
+            from_lookup = any(c[1] == N.HM + 'get' for c in calls_in(passed))
+            okk = got == fld and keyarg == ('param', 2) and from_lookup
+            ret = [ex._def(d, 0) for d in body.defs.get(0, [])]
+            okk = okk and all(r[0] == 'call' and r[1] == REG + 'invalidate_caches' for r in ret)
+        if okk:
+            run.ok('C12-S1', fn, 'reads %s, invalidates the looked-up set, returns its count' % fld)
+        else:
+            run.bad('C12-S1', fn + '/table-mismatch', '%s must look its argument up in %s and invalidate exactly that set (reads %s)' % (fn, fld, got), site=body.name,
+                    oracle='lookup in the same table register wrote')
+    mn = ctx.core_fn(N.METADATA + '::new')
+    n += 1
+    if mn is not None:
+        ex = Expr(mn)
+        aggs = [ex._def(d, 0) for d in mn.defs.get(0, [])]
+        good = len(aggs) == 1 and aggs[0][0] == 'agg' and aggs[0][2] == [('param', 1), ('param', 2), ('param', 3)]
+        if good:
+            run.ok('C12-S1', 'InvalidationMetadata::new', 'parameter i -> field i')
+        else:
+            run.bad('C12-S1', 'InvalidationMetadata::new/order', 'InvalidationMetadata::new must map (tags, events, dependencies) to the same-named fields in order; builds %s'
+                    % [show(a) for a in aggs], site=mn.name)
+    else:
+        run.bad('C12-S1', 'InvalidationMetadata::new/fail-closed', 'fail-closed: InvalidationMetadata::new not found')
+    # S2
+    ic = ctx.core_fn(REG + 'invalidate_caches')
+    n += 1
+    if ic is None:
+        run.bad('C12-S2', 'invalidate_caches/fail-closed', 'fail-closed: invalidate_caches not found')
+    else:
+        ex = Expr(ic)
+        dyn = [(b, t) for b, t in ic.calls() if ctx.prog.dyn_call_kind(ic, t) == 'clear']
+        incs = []
+        for bi, bl in enumerate(ic.blocks):
+            if bl['cleanup']:
+                continue
+            for st in bl['stmts']:
+                if st['k'] == 'assign' and 'bin' in st['rv'] and st['rv']['bin'] in ('AddWithOverflow', 'Add'):
+                    b_ = ex.operand(st['rv']['b'])
+                    if b_[0] == 'const' and b_[1] == 1:
+                        incs.append(bi)
+        gets = [(b, t) for b, t in ic.calls() if callee_name(t) == N.HM + 'get']
+        fld = _lock_field(ex.operand(gets[0][1]['args'][0]))[0] if gets else None
+        okk = len(dyn) == 1 and len(incs) == 1 and len(gets) == 1 and fld == 'clear_callbacks'
+        if okk:
+            db = dyn[0][0]
+            okk = ic.dominates(db, incs[0]) and ic.dominates(gets[0][0], db)
+            # nothing between the call and the increment can skip the increment: the increment post-dominates the call
+            okk = okk and ic.postdominates(incs[0], db)
+            # the callee object is the looked-up entry
+            callee_obj = ex.operand(dyn[0][1]['args'][0])
+            okk = okk and any(c[1] == N.HM + 'get' and c[3] == gets[0][0] for c in calls_in(callee_obj))
+            ret = [ex._def(d, 0) for d in ic.defs.get(0, [])]
+        if okk:
+            run.ok('C12-S2', 'invalidate_caches', 'each looked-up callback is invoked and counted exactly once')
+        else:
+            run.bad('C12-S2', 'invalidate_caches/count', 'invalidate_caches must invoke every callback it finds in clear_callbacks and count exactly those (dyn calls %d, increments %d, lookups %d in %s)'
+                    % (len(dyn), len(incs), len(gets), fld), site=ic.name, oracle='count == number of caches actually cleared')
+    iv = ctx.core_fn(REG + 'invalidate_cache')
+    n += 1
+    if iv is None:
+        run.bad('C12-S2', 'invalidate_cache/fail-closed', 'fail-closed: invalidate_cache not found')
+    else:
+        ex = Expr(iv)
+        dyn = [(b, t) for b, t in iv.calls() if ctx.prog.dyn_call_kind(iv, t) == 'clear']
+        gets = [(b, t) for b, t in iv.calls() if callee_name(t) == N.HM + 'get']
+        okk = len(dyn) == 1 and len(gets) == 1 and _lock_field(ex.operand(gets[0][1]['args'][0]))[0] == 'clear_callbacks' and ex.operand(gets[0][1]['args'][1]) == ('param', 2)
+        if okk:
+            db = dyn[0][0]
+            for d in iv.defs.get(0, []):
+                if d[0] == 'stmt' and 'use' in d[3] and 'const' in d[3]['use']:
+                    v = d[3]['use']['const'].get('int')
+                    if v == 1 and not iv.dominates(db, d[1]):
+                        okk = False
+                    if v == 0 and d[1] in iv.reachable(db):
+                        okk = False
+                else:
+                    okk = False
+        if okk:
+            run.ok('C12-S2', 'invalidate_cache', 'returns true exactly on the path that ran the callback registered under the name')
+        else:
+            run.bad('C12-S2', 'invalidate_cache/result', 'invalidate_cache(name) must run the callback registered under `name` and return true exactly then', site=iv.name)
+    return n
+
+
+def check_registry_routing(run, ctx):
+    """C13-S1: invalidate_with routes the predicate to the named cache only; invalidate_all_with gives each cache its own name"""
+    n = 0
+    iw = ctx.core_fn(REG + 'invalidate_with')
+    n += 1
+    if iw is None:
+        run.bad('C13-S1', 'invalidate_with/fail-closed', 'fail-closed: invalidate_with not found')
+    else:
+        ex = Expr(iw)
+        dyn = [(b, t) for b, t in iw.calls() if ctx.prog.dyn_call_kind(iw, t) == 'check']
+        gets = [(b, t) for b, t in iw.calls() if callee_name(t) == N.HM + 'get']
+        iters = [t for b, t in iw.calls() if callee_name(t) in (N.HM + 'iter', N.HM + 'values')]
+        okk = len(dyn) == 1 and len(gets) == 1 and not iters
+        if okk:
+            okk = _lock_field(ex.operand(gets[0][1]['args'][0]))[0] == 'invalidation_check_callbacks' and ex.operand(gets[0][1]['args'][1]) == ('param', 2)
+            arg = ex.operand(dyn[0][1]['args'][1])
+            okk = okk and any(x == ('param', 3) for x in walk(arg))
+            okk = okk and any(c[1] == N.HM + 'get' for c in calls_in(ex.operand(dyn[0][1]['args'][0])))
+        if okk:
+            run.ok('C13-S1', 'invalidate_with', 'the predicate goes to the callback looked up under the given name, and to no other')
+        else:
+            run.bad('C13-S1', 'invalidate_with/routing', 'invalidate_with(name, p) must call exactly the callback registered under `name` with `p`', site=iw.name,
+                    oracle='caches that are not named keep every entry')
+    ia = ctx.core_fn(REG + 'invalidate_all_with')
+    n += 1
+    if ia is None:
+        run.bad('C13-S1', 'invalidate_all_with/fail-closed', 'fail-closed: invalidate_all_with not found')
+    else:
+        ex = Expr(ia)
+        dyn = [(b, t) for b, t in ia.calls() if ctx.prog.dyn_call_kind(ia, t) == 'check']
+        okk = len(dyn) == 1
+        why = ''
+        if okk:
+            db, dt = dyn[0]
+            arg = ex.operand(dt['args'][1])
+            cls = [x for x in walk(arg) if x[0] == 'agg' and x[1].startswith('closure:')]
+            obj = ex.operand(dt['args'][0])
+            # callee object and captured name come from the same iteration element
+            oroot = [c for c in calls_in(obj) if c[1].endswith('Iterator::next')]
+            if len(cls) != 1 or not oroot:
+                okk = False
+                why = 'no per-cache closure'
+            else:
+                caps = cls[0][2]
+                name_cap = [c for c in caps if any(cc[1].endswith('Iterator::next') and cc[3] == oroot[0][3] for cc in calls_in(c))]
+                pred_cap = [c for c in caps if c == ('param', 2)]
+                if not name_cap or not pred_cap:
+                    okk = False
+                    why = 'the closure does not capture the iteration\'s own cache name and the predicate'
+                else:
+                    # element .0 is the name, .1 the callback
+                    nroot, nn = field_path(strip_casts(name_cap[0][2][0]) if name_cap[0][0] == 'call' and name_cap[0][1] == N.CLONE else strip_casts(name_cap[0]))
+                    croot, cn_ = field_path(strip_casts(obj))
+                    if nn[-1:] != ['0'] or cn_[-1:] != ['1']:
+                        okk = False
+                        why = 'name/callback taken from fields %s/%s of the map entry' % (nn[-1:], cn_[-1:])
+                    cid = cls[0][1].split(':', 1)[1]
+                    cb = ctx.prog.bodies.get(cid)
+                    if cb is not None and okk:
+                        cex = Expr(cb)
+                        pc = [(b, t) for b, t in cb.calls() if callee_name(t).startswith('core::ops::function::Fn')]
+                        if len(pc) != 1:
+                            okk = False
+                            why = 'closure does not call the predicate exactly once'
+                        else:
+                            a = cex.operand(pc[0][1]['args'][1])
+                            # (name, key): first from capture, second the closure's parameter
+                            if not (a[0] == 'agg' and len(a[2]) == 2 and a[2][1] == ('param', 2)):
+                                okk = False
+                                why = 'predicate not applied to (cache name, key)'
+                            rets = [cex._def(d, 0) for d in cb.defs.get(0, [])]
+                            if not all(r[0] == 'call' and r[3] == pc[0][0] for r in rets):
+                                okk = False
+                                why = 'closure does not return the predicate\'s verdict unchanged'
+        if okk:
+            run.ok('C13-S1', 'invalidate_all_with', 'each callback receives a closure applying the predicate to that cache\'s own name')
+        else:
+            run.bad('C13-S1', 'invalidate_all_with/routing', 'invalidate_all_with(p) must pass each registered callback `|key| p(<that cache\'s name>, key)` (%s)' % why, site=ia.name,
+                    oracle='per cache name predicate')
+    return n
+
+
+# ------------------------------------------------------------------------------------------------
+REVIEWED_KEY_TYPES = ['u8', 'u16', 'u32', 'u64', 'u128', 'usize', 'i8', 'i16', 'i32', 'i64', 'i128', 'isize', 'f32', 'f64', 'bool', 'char',
+                      'alloc::string::String', '&str', '(T1,)', '(T1, T2)', '(T1, T2, T3)', '(T1, T2, T3, T4)', '(T1, T2, T3, T4, T5)',
+                      'core::option::Option<T>', 'alloc::vec::Vec<T>', '&[T]']
+
+
+def check_key_traits(run, ctx):
+    """C02-T1 default key = Debug rendering; C02-T2 reviewed impl table (informational)"""
+    n = 0
+    body = None
+    for b in ctx.core.bodies.values():
+        if b.js.get('impl_trait') == 'cachelito_core::keys::CacheableKey' and b.kind == 'assoc_fn':
+            body = b
+    n += 1
+    if body is None:
+        run.bad('C02-T1', 'blanket-impl/fail-closed', 'fail-closed: blanket impl of CacheableKey not found')
+    else:
+        ex = Expr(body)
+        fmts = [t for b, t in body.calls() if callee_name(t).startswith('core::fmt::rt::Argument::new_')]
+        okk = len(fmts) == 1 and callee_name(fmts[0]) == 'core::fmt::rt::Argument::new_debug'
+        if okk:
+            a = ex.operand(fmts[0]['args'][0])
+            okk = a == ('param', 1)
+            rets = [ex._def(d, 0) for d in body.defs.get(0, [])]
+            okk = okk and all(any(c[1] == 'alloc::fmt::format' for c in calls_in(r)) or (r[0] == 'call' and r[1] in ('alloc::fmt::format', 'core::hint::must_use')) for r in rets)
+        if okk and body.impl_self == 'T':
+            run.ok('C02-T1', 'blanket-impl', 'to_cache_key = format!("{:?}", self)')
+        else:
+            run.bad('C02-T1', 'blanket-impl/not-debug', 'the default cache key must be exactly the Debug rendering of the value (self-delimiting for strings and chars)', site=body.name,
+                    oracle='format!("{:?}", self)')
+    impls = sorted(i['self_ty'] for i in ctx.core.impls if i['trait'] == 'cachelito_core::keys::DefaultCacheableKey')
+    extra = [i for i in impls if i not in REVIEWED_KEY_TYPES]
+    missing = [i for i in REVIEWED_KEY_TYPES if i not in impls]
+    n += 1
+    run.ok('C02-T2', 'impl-table', '%d DefaultCacheableKey impls; unreviewed: %s; reviewed but absent: %s' % (len(impls), extra or 'none', missing or 'none'), trivial=True)
+    for x in extra:
+        run.note('unreviewed key type: %s (its Debug must be self-delimiting for C02 to hold)' % x)
+    return n
+
+
+def check_scope_types(run, ctx):
+    """C14-T1: thread scope can only be built on thread-local keys, global scope on process statics"""
+    adts = ctx.core.adts
+    n = 0
+    want = {
+        N.THREAD: {'cache': ('std::thread::local::LocalKey<core::cell::RefCell<', N.HASHMAP), 'order': ('std::thread::local::LocalKey<core::cell::RefCell<', N.VECDEQUE)},
+        N.GLOBAL: {'map': ('once_cell::sync::Lazy<lock_api::rwlock::RwLock<', N.HASHMAP), 'order': ('once_cell::sync::Lazy<lock_api::mutex::Mutex<', N.VECDEQUE)},
+    }
+    for adt, flds in want.items():
+        a = adts.get(adt)
+        if a is None:
+            run.bad('C14-T1', adt + '/fail-closed', 'fail-closed: %s not found' % adt)
+            continue
+        fmap = {f['name']: f['ty'] for f in a['variants'][0]['fields']}
+        for fname, (prefix, inner) in flds.items():
+            n += 1
+            ty = fmap.get(fname, '')
+            body_ty = ty.split(' ', 1)[1] if ty.startswith("&'static ") else ty.lstrip('&')
+            if ty.startswith("&'static ") and body_ty.startswith(prefix) and inner in body_ty:
+                run.ok('C14-T1', '%s.%s' % (adt.rsplit('::', 1)[-1], fname), ty[:120])
+            else:
+                run.bad('C14-T1', '%s.%s/type' % (adt.rsplit('::', 1)[-1], fname), 'field %s of %s has type %s: %s storage is no longer guaranteed by the type' % (
+                    fname, adt, ty, 'per-thread' if adt == N.THREAD else 'process-wide'), site=adt, oracle="&'static %s..." % prefix)
+    return n
